@@ -1,7 +1,7 @@
 #!/usr/bin/env python3
 """Re-runs the targeted quick check against every kept seeded change (scratch copy of /repo + patch.diff; removed afterwards).
 
-usage: tools/run_seeded.py [--only SUBSTR] [--seed N] [--md seeded/RESULTS.md]
+usage: tools/run_seeded.py [--only SUBSTR] [--seed N] [--jobs N] [--md seeded/RESULTS.md]
 """
 import argparse, json, os, shutil, subprocess, sys, tempfile, time
 ROOT = os.path.dirname(os.path.dirname(os.path.abspath(__file__)))
@@ -9,12 +9,13 @@ ap = argparse.ArgumentParser()
 ap.add_argument("--only", default="")
 ap.add_argument("--seed", default="0")
 ap.add_argument("--md", default="")
+ap.add_argument("--jobs", type=int, default=1)
 a = ap.parse_args()
 rows = []
-for name in sorted(os.listdir(os.path.join(ROOT, "seeded"))):
+
+
+def one(name):
     d = os.path.join(ROOT, "seeded", name)
-    if not os.path.isdir(d) or (a.only and a.only not in name):
-        continue
     meta = json.load(open(os.path.join(d, "meta.json")))
     prop = meta["breaks_property"]
     scratch = tempfile.mkdtemp(prefix="vseed-")
@@ -23,7 +24,7 @@ for name in sorted(os.listdir(os.path.join(ROOT, "seeded"))):
         r = subprocess.run(["patch", "-p1", "-s", "-i", os.path.join(d, "patch.diff")], cwd=scratch, capture_output=True, text=True)
         if r.returncode != 0:
             rows.append((name, prop, "patch does not apply", 0, "", ""))
-            continue
+            return
         t0 = time.time()
         env = dict(os.environ, VERIF_REPO=scratch, VERIF_SEED=a.seed, VERIF_EVIDENCE_DIR=os.path.join(scratch, ".ev"))
         r = subprocess.run([os.path.join(ROOT, "check"), prop, "--tier", "quick"], env=env, capture_output=True, text=True)
@@ -39,6 +40,12 @@ for name in sorted(os.listdir(os.path.join(ROOT, "seeded"))):
         print(f"{name:50s} {prop} exit={r.returncode} {time.time()-t0:5.1f}s {','.join(kinds)} [{rep}]", flush=True)
     finally:
         shutil.rmtree(scratch, ignore_errors=True)
+names = [n for n in sorted(os.listdir(os.path.join(ROOT, "seeded")))
+         if os.path.isdir(os.path.join(ROOT, "seeded", n)) and (not a.only or a.only in n)]
+from concurrent.futures import ThreadPoolExecutor
+with ThreadPoolExecutor(max_workers=max(1, a.jobs)) as ex:
+    list(ex.map(one, names))
+rows.sort()
 missed = [r for r in rows if r[2] != 1]
 print(f"{len(rows) - len(missed)}/{len(rows)} seeded changes caught by their targeted quick check; missed: {[r[0] for r in missed]}")
 print("replays that do not reproduce:", [r[0] for r in rows if r[5].startswith("REPLAY")])
